@@ -441,7 +441,10 @@ def evaluate(R, cases, mlref, rsref, tier):
                 # notation body): not in the property's scope
                 R.hist['valid-outside-fragment-fails'] = R.hist.get('valid-outside-fragment-fails', 0) + 1
                 continue
-            sig = f"translate-raises:{exc.split()[0]}@{o.get('fn', '?')}:{where}"
+            # for a catalogued shape the signature names the shape and the exception class only (function names change under
+            # refactoring); in-fragment failures keep the raising function to tell different defects apart
+            sig = (f"translate-raises:{exc.split()[0]}@{o.get('fn', '?')}:{where}" if where == 'in-fragment'
+                   else f"translate-raises:{exc.split()[0]}:{where}")
             failures.append((sig, c, f'valid Metamath proof, translation raised {exc}: {o.get("msg", "")[:200]}'))
             continue
         for mode in ('plain', 'opt'):
